@@ -246,7 +246,11 @@ def run(tier, seed):
             ck.violation("reencode_raised:%s" % type(e).__name__, "re-encoding %s raised %r" % (type(t).__name__, e), rp)
         # find_avps on the freshly decoded generic message
         if c["avps"] and (ci % 3 == 0 or c["tag"] == "long"):
-            tree, idx = tree_of(g.avps)
+            try:
+                tree, idx = tree_of(g.avps)
+            except Exception as e:      # a well-formed message whose decoded tree cannot even be walked
+                ck.violation("avp_tree_walk_raised:%s" % type(e).__name__, "reading the AVP tree of a well-formed message raised %r" % (e,), rp)
+                continue
             paths = gen_paths(rng, tree)
             find_cases.append({"op": "find", "tree": tree, "paths": paths})
             find_ctx.append((g, idx, paths, rp))
